@@ -7,6 +7,7 @@ from ..tables import base_name
 from .c05 import find_engine
 from .c16 import Stepper, char_values
 
+RETRY_INLINED = True
 LEVEL = 'other'
 
 # characters that may appear in a URI query (RFC 3986: pchar / "/" / "?"), besides pct-encoded triplets
